@@ -20,4 +20,6 @@ var Registry = map[string]func(Args) error{
 	"immut":       Immut,
 	"dict":        Dict,
 	"robust":      Robust,
+	"sctp":        SCTP,
+	"sctpanswer":  SCTPAnswer,
 }
